@@ -31,7 +31,7 @@ PROPS = {
         "cone_nodes": "root_children",
         "data_obligations": ["every root child except text is in the monotone class or is ttf", "mdb/accdb are root children with the signatures ttf excludes", "text is the last root child"],
         "rule": "c17: every seed (and mutated / shifted variants) is detected at every limit 1..len+1 and at 0; once a limit gives a non-text root format every larger limit must too; non-trivial = the input is binary at some but not all limits. det: the detector correspondence on the same seed family (root children are the cone)",
-        "proved": "limit_monotone for all inputs < 4 GiB, all limit pairs, all oracles; GoLite monotonicity analysis sound; tar/crx/matroska monotone; ttf hand-over",
+        "proved": "limit_monotone for all inputs < 4 GiB, all limit pairs, all oracles; GoLite monotonicity analysis sound; tar/crx/matroska monotone; ttf hand-over; the hand models of Tar, CRX, Mkv, WebM are the current source (translated on this run and proved equal, C17_hand_models_are_the_source)",
         "not_proved": "inputs of 4 GiB or more (uint32(len(raw)) wraps in CRX)",
         "assumptions": COMMON_ASSUME + ["input shorter than 4 GiB"],
     },
@@ -39,9 +39,9 @@ PROPS = {
         "channels": [{"cmd": "run-det"}, {"cmd": "run-bombs", "shards": 16}],
         "cone": None,
         "rule": "same stream as C03 with every detector called directly under recover on an exact-capacity copy and on a prefix of a poisoned larger buffer; a panic, a poison-dependent verdict, a nil result or a 20 s hang is a property failure",
-        "data_obligations": ["translation_agrees: the bodies of all 37 function detectors with a GoLite term (loops over literal tables and constant ranges unrolled, switches, masked comparisons, helpers inlined), translated from the current source, equal the hand-written terms up to a normalisation proved to preserve result and Panic behaviour", "comb_translation_agrees: for each of the 93 signatures built by prefix / offset / ftyp / jpeg2k, the combinator closure body in the current source instantiated with the literal arguments equals the model term", "every translated body passes the bounds analysis"],
-        "proved": "soundness of the bounds analysis (a GoLite term that passes it never evaluates to Panic, for every input, limit and environment); regenerated obligation: every combinator instance of tree.go and every GoLite detector term passes the analysis; every node of the regenerated tree has a model; the offset-computing detectors (zipContains, CRX, matchOleClsid, Ppt, Matroska, Tar): checked transliterations in which every index / slice expression carries Go's run-time check never reach Panic, for any input (uint32 wrap-around and 64-bit int as in the code), and equal the total models; the model's Detect is total and returns a registered chain ending in the root for every input and limit",
-        "not_proved": "the JSON scanner, NDJSON/CSV and the charset sniffers are modelled as total list functions in suffix-passing style (an index error is not representable); that the checked transliterations mirror the Go index expressions is by reading + verdict correspondence; crash- and hang-freedom on the real code is exercised (recover, poisoned capacity, hostile length fields, watchdog), not proved; stdlib calls are assumed not to panic",
+        "data_obligations": ["translation_agrees: the bodies of all 37 function detectors with a GoLite term (loops over literal tables and constant ranges unrolled, switches, masked comparisons, helpers inlined), translated from the current source, equal the hand-written terms up to a normalisation proved to preserve result and Panic behaviour", "comb_translation_agrees: for each of the 93 signatures built by prefix / offset / ftyp / jpeg2k, the combinator closure body in the current source instantiated with the literal arguments equals the model term", "every translated body passes the bounds analysis", "src_untranslated = []: all 22 functions of the offset-computing family are inside the second translator's fragment; the lemmas of Proofs/Src{Ole,Zip,Mkv,Tar}P.v are re-proved against the freshly translated definitions"],
+        "proved": "soundness of the bounds analysis (a GoLite term that passes it never evaluates to Panic, for every input, limit and environment); regenerated obligation: every combinator instance of tree.go and every GoLite detector term passes the analysis; every node of the regenerated tree has a model; the offset-computing detectors (zipContains, CRX, matchOleClsid, Ppt, Matroska, Tar): checked transliterations in which every index / slice expression carries Go's run-time check never reach Panic, for any input (uint32 wrap-around and 64-bit int as in the code), and equal the total models; the same fifteen detectors and their seven helpers AS TRANSLATED FROM THE CURRENT SOURCE on this run (harness/gores.go -> Gen/SrcFuncs.v: every statement one binding, every index / slice / Uint32 with its run-time check, Go evaluation order, uint32 / uint8 wrap, loops over the input as folds, `for cond` with fuel) never reach Panic and return exactly the model the tree walk evaluates for their node, for every input made of bytes and every limit (C01_source_offset_detectors_never_panic); the model's Detect is total and returns a registered chain ending in the root for every input and limit",
+        "not_proved": "the JSON scanner, NDJSON/CSV and the charset sniffers are modelled as total list functions in suffix-passing style (an index error is not representable); the translator harness/gores.go is trusted for what it prints (it refuses anything outside its fragment; its output is also run against the Go code in the det channel, Panic included); 64-bit int arithmetic is taken exact; crash- and hang-freedom on the real code is exercised (recover, poisoned capacity, hostile length fields, watchdog), not proved; stdlib calls are assumed not to panic",
         "assumptions": COMMON_ASSUME,
     },
 }
@@ -111,7 +111,7 @@ PROPS["C18"] = {
     "channels": [{"cmd": "run-c18"}],
     "cone": r"^MISMATCH (tar|tar-spec|walk|harness|driver)",
     "rule": "archives written by archive/tar (USTAR, PAX, GNU; names incl. non-ASCII, 100+ characters, gpkg-1 look-alikes; modes, ids, sizes, six entry types): the first block must satisfy the specification predicate tar_header_ok (ties the spec to real writers) and Detect must report tar unless a root child before tar accepts; every position 0..511 outside the checksum field of 12 (thorough 24) headers x 6 (thorough 255) replacement values: must not be tar; Tar detector vs model on all; non-trivial = reported as tar",
-    "proved": "tar_accepts, tar_corruption (all 512-byte blocks, all positions, all values), corruption_breaks_both; K1 as explicit hypothesis with refutation witness",
+    "proved": "tar_accepts, tar_corruption (all 512-byte blocks, all positions, all values), corruption_breaks_both; K1 as explicit hypothesis with refutation witness; Tar, tarParseOctal and tarChksum as translated from the current source on this run never panic and equal tar_det / tar_parse_octal / (usum, ssum) for every input made of bytes (C18_tar_is_the_source, C18_checksum_helpers_are_the_source)",
     "not_proved": "",
     "assumptions": COMMON_ASSUME + ["conforming writers emit first blocks satisfying tar_header_ok (checked on every generated archive)"],
 }
@@ -122,7 +122,7 @@ PROPS["C19"] = {
     "cone_nodes": ["zip", "xlsx", "docx", "pptx", "epub", "apk", "jar", "odt", "ott", "ods", "ots", "odp", "otp", "odg", "otg", "odf", "odc", "sxc"],
     "data_obligations": ["zip children and their order (apk before jar); every zip-based format has parent application/zip", "marker literals of the Go functions = specification markers"],
     "rule": "archives written by archive/zip (CreateHeader with data descriptors and CreateRaw without; stored and deflated; bodies 0-2 kB; archives whose bodies embed a local-header signature are filtered out and counted): OOXML packages with [Content_Types].xml first, bookkeeping parts in any combination and a word/ xl/ ppt/ part at entry 2..6; JAR (with and without APK markers); stored mimetype entry naming each OpenDocument/EPUB type; marker-free archives of near-miss names; late / misplaced markers; the entry list read back with archive/zip is the oracle for both directions (extracted predicates c19_forward, c19_converse, no_marker); det: zip detectors vs model; non-trivial = result other than plain application/zip",
-    "proved": "first-entry clauses (JAR signature, offset-30 ODF/EPUB), zip sub-tree structure, marker literals; the five-hop walk (C19_walk): on an archive laid out as local entries + central directory, under the layout conditions (after offset 26 of a footprint the next local-header signature is the next header; the first size field points into or right behind the first footprint; signature tests decided by the names) zipContains = the signature is a prefix of one of the first six names, and for OOXML the first name is a bookkeeping part - forward and converse in one equation; the hop condition from byte-level facts (C19_hop_condition)",
+    "proved": "first-entry clauses (JAR signature, offset-30 ODF/EPUB), zip sub-tree structure, marker literals; the five-hop walk (C19_walk): on an archive laid out as local entries + central directory, under the layout conditions (after offset 26 of a footprint the next local-header signature is the next header; the first size field points into or right behind the first footprint; signature tests decided by the names) zipContains = the signature is a prefix of one of the first six names, and for OOXML the first name is a bookkeeping part - forward and converse in one equation; the hop condition from byte-level facts (C19_hop_condition); zipContains and Docx / Xlsx / Pptx / Jar / APK as translated from the current source on this run never panic and equal zip_contains and the node models for every input, marker and msoCheck (C19_zip_walk_is_the_source, C19_zip_detectors_are_the_source)",
     "not_proved": "that archive/zip (and other standard writers) produce layouts meeting the conditions - decided on archives written by archive/zip with the entry list read back as oracle; layouts violating them are the known findings K2 (footprint < 26) and K5 (name continued by content); K3 is the apk-before-jar priority",
     "assumptions": COMMON_ASSUME + ["bodies free of embedded zip signatures (filtered by the generator)"],
 }
